@@ -14,7 +14,7 @@ int main(int argc, char** argv) {
     std::streambuf* old = std::cout.rdbuf(0);      // the library is chatty
     for (int r = 0; r < R; ++r) {
         if (mode == "skel") {
-            pMPI::mpi_skel<Job> skel; skel.parts.resize(J); for (int j = 0; j < J; ++j) { skel.parts[j].id = j; skel.parts[j].round = r; skel.parts[j].complexity = cx ? (j * 7 + 3) % 5 + j : 1; }
+            pMPI::mpi_skel<Job> skel; skel.parts.resize(J); for (int j = 0; j < J; ++j) { skel.parts[j].id = j; skel.parts[j].round = r; skel.parts[j].complexity = cx == 2 ? ((j % 2 == 0) ? 0 : j) : (cx ? (j * 7 + 3) % 5 + j : 1); }
             std::map<pMPI::JobId, pMPI::WorkerId> m = skel.run(world, false);
             for (auto& kv : m) g_out << "MAP " << rank << " " << r << " " << kv.first << " " << kv.second << "\n";
         } else {
